@@ -43,6 +43,15 @@ def takeDigits : List Char → List Char × List Char
   | [] => ([], [])
   | c :: cs => if c.isDigit then let (a, b) := takeDigits cs; (c :: a, b) else ([], c :: cs)
 
+/-- the optional fraction of a second: up to six digits after '.', right-padded to microseconds -/
+def parseFrac (rest : List Char) : Option Nat × List Char :=
+  match rest with
+  | '.' :: more =>
+    let (ds, r) := takeDigits more
+    if ds.isEmpty || ds.length > 6 then (none, r)
+    else ((digitsToNat? (ds ++ List.replicate (6 - ds.length) '0')), r)
+  | r => (some 0, r)
+
 def parseIso (s : String) : Option DateTime :=
   match s.toList with
   | y1 :: y2 :: y3 :: y4 :: '-' :: mo1 :: mo2 :: '-' :: d1 :: d2 :: 'T' ::
@@ -51,13 +60,7 @@ def parseIso (s : String) : Option DateTime :=
           digitsToNat? [h1, h2], digitsToNat? [mi1, mi2], digitsToNat? [s1, s2] with
     | some y, some mo, some d, some h, some mi, some sec =>
       if y ≥ 1 && 1 ≤ mo && mo ≤ 12 && 1 ≤ d && d ≤ daysInMonth y mo && h < 24 && mi < 60 && sec < 60 then
-        let (us?, rest') : Option Nat × List Char :=
-          match rest with
-          | '.' :: more =>
-            let (ds, r) := takeDigits more
-            if ds.isEmpty || ds.length > 6 then (none, r)
-            else ((digitsToNat? (ds ++ List.replicate (6 - ds.length) '0')), r)
-          | r => (some 0, r)
+        let (us?, rest') : Option Nat × List Char := parseFrac rest
         match us?, parseTz rest' with
         | some us, some tz => some ⟨y, mo, d, h, mi, sec, us, tz⟩
         | _, _ => none
